@@ -109,7 +109,7 @@ def _line_case(item):
     t, nc, d = _CFG["T"], _CFG["NC"], _CFG["D"]
     rng = random.Random(seed)
     rec = {"kind": "line", "w": [list(r) for r in wm], "labels": list(labels), "al": list(al), "seed": seed, "outcome": "ok",
-           "lc": [], "lc_s": [], "let": [], "let_s": [], "cmp": 0, "cmp_s": 0, "lce": [], "lce_s": [],
+           "lc": [], "lc_s": [], "let": [], "let_s": [], "cmp": 0, "cmp_s": 0, "lce": [], "lce_s": [], "lce_neg": [], "lce_neg_s": [],
            "over": 0, "dshift": 0, "dshift_cmp": 0, "one": 0, "one_cmp": 0}
     try:
         c0 = [rng.uniform(-3, 3) for _ in range(t)]
@@ -145,6 +145,8 @@ def _line_case(item):
             rec["let" + key] = [_m6(x) for x in let]
             rec["cmp" + key] = _m6(cmp_)
             rec["lce" + key] = lce
+            with np.errstate(all="ignore"):
+                rec["lce_neg" + key] = [bool(line_confident_enough(dense.copy(), thr)) for thr in (-1.0, -0.001)]
             vals.append((lc, let, cmp_))
         (lc, let, cm), (lcs, lets, cms) = vals
         if len(lc) != len(labels) or len(let) != len(labels) or len(lcs) != len(labels) or len(lets) != len(labels):
